@@ -952,6 +952,9 @@ class Translator:
         key, k = self.loop_key(cx)
         cond_n, body_n = n['inner'][0], n['inner'][1]
         if cx.cname in self.split and k in self.split[cx.cname] and cx.split_mode is None:
+            if getattr(cx, 'skel', False):
+                self.emit_summary_call(cx, key)
+                return
             self.emit_split(n, cx, key, cond_n, body_n)
         cond = self.E(cond_n, cx)
         if cx.pre: raise Unsupported(f'loop condition needs hoisting in {cx.cname}')
@@ -964,8 +967,19 @@ class Translator:
     def S_ForStmt(self, n, cx):
         key, k = self.loop_key(cx)
         init, condvar, cond, inc, body = n['inner']
+        is_split = cx.cname in self.split and k in self.split[cx.cname] and cx.split_mode is None
         cx.emit('{'); cx.ind += 1; cx.scopes.append([])
         if init.get('kind'): self.S(init, cx)
+        if is_split:
+            # for(init; c; inc) body  ==  { init; while(c) { body; inc; } }: the init statement is part of the prologue
+            cx.siblings_before = list(getattr(cx, 'siblings_before', [])) + ([init] if init.get('kind') else [])
+            if getattr(cx, 'skel', False):
+                self.emit_summary_call(cx, key)
+                cl = cx.scopes.pop()
+                for s_ in reversed(cl): cx.emit(s_)
+                cx.ind -= 1; cx.emit('}')
+                return
+            self.emit_split(n, cx, key, cond if cond.get('kind') else None, body, inc if inc.get('kind') else None)
         c = self.E(cond, cx) if cond.get('kind') else '1'
         i = self.E(inc, cx) if inc.get('kind') else ''
         if cx.pre: raise Unsupported(f'for-loop header needs hoisting in {cx.cname}')
@@ -975,7 +989,7 @@ class Translator:
         self.S_block(body, cx)
         cx.loop_depth_scopes.pop()
         cl = cx.scopes.pop()
-        for s in reversed(cl): cx.emit(s)
+        for s_ in reversed(cl): cx.emit(s_)
         cx.ind -= 1; cx.emit('}')
 
     def S_BreakStmt(self, n, cx):
@@ -987,6 +1001,8 @@ class Translator:
     def S_ContinueStmt(self, n, cx):
         self.exit_scopes(cx, cx.loop_depth_scopes[-1] if cx.loop_depth_scopes else getattr(cx, 'base', 0))
         if cx.split_mode is not None and not cx.loop_depth_scopes:
+            if getattr(cx, 'for_inc', None) is not None:
+                cx.emit(self.E(cx.for_inc, cx) + '; /* for-increment */')
             cx.emit('return 0; /* continue */'); return
         cx.emit('continue;')
 
@@ -1025,8 +1041,35 @@ class Translator:
             self.exit_scopes(cx, 0)
             cx.emit('return 2;' if sm is not None else 'return;')
 
+    def split_params(self, cx):
+        params = []; args = []
+        if cx.self_expr == 'self' and cx.self_type:
+            params.append(f'{cx.self_type} *self'); args.append('self')
+        for vid, (cexpr, t) in cx.vars.items():
+            nm = cexpr[2:-1] if cexpr.startswith('(*') else cexpr
+            if not re.match(r'^\w+$', nm):
+                raise Unsupported(f'split loop in {cx.cname}: captured variable {cexpr}')
+            params.append(f'{t.c} *{nm}')
+            args.append(nm if cexpr.startswith('(*') else f'&{nm}')
+        if cx.ret is not None and cx.ret.cls != 'void':
+            params.append(f'{cx.ret.c} *__retval'); args.append('&__retval')
+        return params + self.ghost_decls(), args + self.ghost_args()
+
+    def emit_summary_call(self, cx, key):
+        params, args = self.split_params(cx)
+        sname = key + '_summary'
+        self.externs[sname] = f'int {sname}({", ".join(params)})'
+        has_ret = cx.ret is not None and cx.ret.cls != 'void'
+        cx.emit('{')
+        if has_ret: cx.emit(f'  {cx.ret.c} __retval;')
+        cx.emit(f'  int __rc = {sname}({", ".join(args)});')
+        cx.emit('  if (__rc == 2)'); cx.emit('  {')
+        cx.ind += 2; self.exit_scopes(cx, 0); cx.ind -= 2
+        cx.emit('    return __retval;' if has_ret else '    return;')
+        cx.emit('  }'); cx.emit('}')
+
     # ------------------------------------------------------------------ split loops
-    def emit_split(self, n, cx, key, cond_n, body_n):
+    def emit_split(self, n, cx, key, cond_n, body_n, inc_n=None):
         """emit `int <key>(self, T *local...)`: one iteration of the loop (condition + body).
         return 0 = iteration finished, go on; 3 = loop condition false (exit); 1 = break; 2 = return (*__retval set)"""
         bcx = Ctx(self, key, cx.self_expr)
@@ -1047,10 +1090,14 @@ class Translator:
         if cx.ret is not None and cx.ret.cls != 'void':
             params.append(f'{cx.ret.c} *__retval')
         params += self.ghost_decls()
-        bcx.emit(f'if (!({self.E(cond_n, bcx)})) return 3; /* loop exit */')
+        if cond_n is not None:
+            bcx.emit(f'if (!({self.E(cond_n, bcx)})) return 3; /* loop exit */')
         bcx.scopes = [list(x) for x in cx.scopes]
         bcx.base = len(bcx.scopes)
+        bcx.for_inc = inc_n
         self.S_block(body_n, bcx)
+        if inc_n is not None:
+            bcx.emit(self.E(inc_n, bcx) + '; /* for-increment */')
         bcx.emit('return 0;')
         # prologue (statements of the enclosing block before the loop) and epilogue (after it), same signature
         for part, stmts in (('pre', getattr(cx, 'siblings_before', [])), ('epi', getattr(cx, 'siblings_after', []))):
@@ -1068,6 +1115,9 @@ class Translator:
                 for st in stmts: self.S(st, pcx)
                 if not stmts or stmts[-1].get('kind') != 'ReturnStmt':
                     for st_ in reversed(pcx.scopes[-1]): pcx.emit(st_)
+                    if inc_n is not None or n.get('kind') == 'ForStmt':
+                        # a for-statement has its own scope around the loop: the enclosing block closes as well
+                        for st_ in reversed(pcx.scopes[-2] if len(pcx.scopes) > 1 else []): pcx.emit(st_)
             pcx.emit('return 0;')
             pproto = f'int {key}_{part}({", ".join(params)})'
             pcx.lines = self.add_reach(pcx.lines, f'{key}_{part}')
@@ -1093,6 +1143,12 @@ class Translator:
         selfp = f'{cx.self_type} *self' if cx.self_type else None
         body = [c for c in decl['inner'] if c.get('kind') == 'CompoundStmt'][0]
         self.emit_function_text(decl, cn, selfp, body, cx)
+        if cn in self.split:
+            # skeleton: the same function with each split loop replaced by a call to the loop's summary
+            # (a bodiless function whose contract is what the prologue / iteration / epilogue obligations establish)
+            sk = Ctx(self, cn)
+            sk.self_type = cx.self_type; sk.skel = True
+            self.emit_function_text(decl, cn + '__skel', selfp, body, sk)
 
     def emit_function_text(self, decl, cn, selfp, body, cx):
         if not hasattr(cx, 'self_type'): cx.self_type = None
